@@ -259,10 +259,25 @@ def body_expand(case, note):
         ref = mk(expand([head_tfy])[0], expand(roots[1:])).render(lib_prefix=case["lib"])
         check(p1["html"] == ref["html"], "document whose <head> comes from a tagifiable object differs from the expanded document", ref["html"], p1["html"])
         check(p2["html"] == p1["html"], "second rendering of a document whose <head> comes from a tagifiable object differs", p1["html"], p2["html"])
+    # "at any positions": also as the value of a JSX component's prop (below an ordinary tag)
+    in_prop = False
+    def _jsx_ok(n):
+        # what a component can carry: tags, text, dependencies (HTML() / self-rendering objects are refused by the JSX writer)
+        return n["k"] in ("text", "dep", "headc") or (n["k"] == "tag" and all(_jsx_ok(k) for k in n["kids"]))
+
+    if roots[0]["k"] == "tfy" and roots[0]["res"]["k"] == "tag" and roots[0].get("variant") in (None, "stored") and _jsx_ok(expand([roots[0]])[0]):
+        from htmltools._jsx import JSXTag
+
+        pa = h.Tag("div", JSXTag("Foo", title=build(roots[0]), id="c")).render()
+        pb = h.Tag("div", JSXTag("Foo", title=build(expand([roots[0]])[0]), id="c")).render()
+        check(pa["html"] == pb["html"], "a tagifiable object given as a component prop is not rendered as its expansion", pb["html"], pa["html"])
+        check([S.snap(d) for d in pa["dependencies"]] == [S.snap(d) for d in pb["dependencies"]], "... nor are its dependencies reported")
+        in_prop = True
     s = stats(roots)
     variants = {n.get("variant") for n in _all(roots) if n["k"] == "tfy"}
     note(s["tfy"] >= 2 and (s["multi"] or s["nested"]), *["variant:" + v for v in sorted(x for x in variants if x)], "empty-expansion-adjacent" if s["empty-adjacent"] else "", "nested-expansion" if s["nested"] else "", "no-tfy" if s["tfy"] == 0 else "",
          "earlier-rendering-raised" if failed else "", "prior-plain-instances+flex" if case.get("prior") and "flex" in variants else "",
+         "tagifiable-as-component-prop" if in_prop else "",
          "document-grew-between-renderings" if grown else "", "tagify-result-grew-then-rendered" if regrown else "")
 
 
@@ -332,7 +347,7 @@ CLAUSES = [
         quick=700,
         thorough=10000,
         shards_quick=4,
-        required=("empty-expansion-adjacent", "nested-expansion", "variant:stored", "variant:strsub", "variant:iter", "variant:flaky", "variant:flex", "variant:tagsub", "variant:listsub", "earlier-rendering-raised", "prior-plain-instances+flex", "document-grew-between-renderings", "tagify-result-grew-then-rendered"),
+        required=("empty-expansion-adjacent", "nested-expansion", "variant:stored", "variant:strsub", "variant:iter", "variant:flaky", "variant:flex", "variant:tagsub", "variant:listsub", "earlier-rendering-raised", "prior-plain-instances+flex", "document-grew-between-renderings", "tagify-result-grew-then-rendered", "tagifiable-as-component-prop"),
         rule="see RULE",
     ),
     Clause(
